@@ -1310,6 +1310,32 @@ func genExits(repo, out string) {
 		})
 		sites = append(sites, fmt.Sprintf("(%s, %s)", leanStr(name), leanList(calls)))
 	}
+	// region/client.go fail(): the calls inside failOnce.Do in source order. The model treats the
+	// failure transition as one step; what that needs from the code is the order "done closed,
+	// connection closed, then the sweep of the sent map" (a call registered after the sweep can
+	// then only meet a failing write, and its own sender completes it)
+	frc := parse(filepath.Join(repo, "region", "client.go"))
+	var failCalls []string
+	if fd := findMethod(frc, "client", "fail"); fd != nil {
+		ast.Inspect(fd.Body, func(n ast.Node) bool {
+			if c, ok := n.(*ast.CallExpr); ok {
+				switch fn := c.Fun.(type) {
+				case *ast.SelectorExpr:
+					failCalls = append(failCalls, exprStr(fn.X)+"."+fn.Sel.Name)
+				case *ast.Ident:
+					if fn.Name == "close" && len(c.Args) == 1 {
+						failCalls = append(failCalls, "close("+exprStr(c.Args[0])+")")
+					} else {
+						failCalls = append(failCalls, fn.Name)
+					}
+				}
+			}
+			return true
+		})
+	} else {
+		g.fail("region client fail missing")
+	}
+	g.def("failCalls", "List String", leanList(failCalls))
 	g.def("publishSites", "List (String × List String)", "[\n  "+strings.Join(sites, ",\n  ")+"]")
 	g.finish(out)
 }
